@@ -94,11 +94,51 @@ class C05Run(E2Run):
             return False
         return True
 
+    # -- file-system names (state reading) and the existence judgement for handler-level refusals ----------------------
+    def fs_names(self, node) -> Dict[str, Any]:
+        fs = getattr(node, "file_system", None)
+        if fs is None:
+            return {"live": {}, "deleted": {}}
+        live = {f.name: {"files": sorted(x.name for x in f.files.values()), "deleted_files": sorted(x.name for x in f.deleted_files.values())} for f in fs.folders.values()}
+        dead = {f.name: {"files": sorted(x.name for x in f.files.values()), "deleted_files": sorted(x.name for x in f.deleted_files.values())} for f in fs.deleted_folders.values() if f.name not in live}
+        return {"live": live, "deleted": dead}
+
+    def fs_target_missing(self, req: List) -> Optional[str]:
+        """For file-system requests whose folder / file is named by parameters: why the addressed item does not exist
+        (None = it exists, or the request is of another kind)."""
+        if len(req) < 6 or req[:2] != ["network", "node"] or req[3] != "file_system":
+            return None
+        node = self.node(req[2])
+        if node is None or getattr(node, "file_system", None) is None:
+            return None
+        names = self.fs_names(node)
+        verb = req[4]
+        if verb in ("delete", "restore") and len(req) >= 7 and req[5] in ("file", "folder"):
+            what, folder = req[5], req[6]
+            if what == "folder":
+                if verb == "delete":
+                    return None if folder in names["live"] else f"folder {folder!r} does not exist"
+                return None if (folder in names["deleted"] or folder in names["live"]) else f"no folder {folder!r}, deleted or not"
+            if len(req) < 8:
+                return None
+            file = req[7]
+            if folder not in names["live"]:
+                return f"folder {folder!r} does not exist" + (" (it is deleted)" if folder in names["deleted"] else "")
+            pool = names["live"][folder]["files"] if verb == "delete" else names["live"][folder]["files"] + names["live"][folder]["deleted_files"]
+            return None if file in pool else f"file {folder}/{file} does not exist"
+        if verb == "access" and len(req) >= 7:
+            folder, file = req[5], req[6]
+            if folder not in names["live"]:
+                return f"folder {folder!r} does not exist"
+            return None if file in names["live"][folder]["files"] else f"file {folder}/{file} does not exist"
+        return None
+
     # -- submission + oracle ----------------------------------------------------------------------------------------------
     def do_req(self, req: List, label: str = "req"):
         if not label.startswith("c05"):
             return super().do_req(req, label)
         before = self.state_digest()
+        missing = self.fs_target_missing(req)
         self.trace.history.clear()
         resp = super().do_req(req, label)  # raises C05 request-raises on exception
         tr = self.trace.history[0] if self.trace.history else None
@@ -127,6 +167,13 @@ class C05Run(E2Run):
                 bad("refused-request-changed-state", f"ended by a {tr['end']} at depth {tr['depth']} but the simulation state changed", sig=f"refused-request-changed-state:{tr['end']}")
         elif tr is not None:
             self.probe("c05_reached_handler")
+        if missing is not None:
+            # the folder / file the request addresses does not exist (harness' own reading of the file system)
+            self.probe("c05_named_item_missing")
+            if resp.status == "success":
+                bad("missing-item-answered-success", f"{missing}, yet the request was answered 'success'", sig=f"missing-item-answered-success:{'/'.join(str(x) for x in req[4:6])}")
+            if self.state_digest() != before:
+                bad("refused-request-changed-state", f"{missing}, the request was answered {resp.status!r}, but the simulation state changed", sig="refused-request-changed-state:missing-item")
         meta = self._meta or {}
         if meta.get("all_exist") and resp.status == "unreachable":
             bad("existing-target-unreachable", f"action {meta['action']} {meta['options']} names only existing components but was answered unreachable", sig=f"existing-target-unreachable:{meta['action']}")
@@ -167,6 +214,24 @@ class C05Run(E2Run):
             "port_scan": [{"target_ip_address": r.choice(addr), "target_port": 80, "target_protocol": "tcp", "show": False}],
             "network_service_recon": [{"target_ip_address": r.choice(addr), "target_port": 80, "target_protocol": "tcp", "show": False}],
         }
+        names = self.fs_names(node) if node is not None else {"live": {}, "deleted": {}}
+
+        def pick_folder(allow_deleted=True):
+            pool = list(names["live"]) + (list(names["deleted"]) * 2 if allow_deleted else []) + ["nofolder"]
+            return r.choice(pool)
+
+        def pick_file(folder):
+            rec = names["live"].get(folder) or names["deleted"].get(folder) or {"files": [], "deleted_files": []}
+            return r.choice(rec["files"] + rec["deleted_files"] * 2 + ["nofile", "a.txt"])
+
+        if leaf == "access":
+            fo = pick_folder()
+            return [fo, pick_file(fo)]
+        if leaf == "file" and len(route) >= 2 and route[-2] in ("delete", "restore"):
+            fo = pick_folder()
+            return [fo, pick_file(fo)]
+        if leaf == "folder" and len(route) >= 2 and route[-2] in ("delete", "restore"):
+            return [pick_folder()]
         if leaf in t:
             return t[leaf]
         if leaf == "file" and len(route) >= 2 and route[-2] in ("create",):
@@ -202,6 +267,11 @@ class C05Run(E2Run):
                     self.emit(["req", ["network", "node", hn, "service", r.choice(sorted(s.name for s in node.services.values())), r.choice(["stop", "disable", "pause", "restart"])], "F4_service"])
                 elif node.applications:
                     self.emit(["req", ["network", "node", hn, "software_manager", "application", "uninstall", r.choice(sorted(a.name for a in node.applications.values()))], "F4_install"])
+            elif x < 0.34 and getattr(node, "file_system", None) is not None:
+                # file-system requests whose folder / file is named by parameters: live, deleted and absent names
+                fake_route = ["network", "node", hn, "file_system"] + r.choice([["delete", "file"], ["delete", "file"], ["delete", "folder"], ["delete", "folder"], ["restore", "file"], ["restore", "file"], ["restore", "folder"], ["access"]])
+                params = self.params_for(r, fake_route, node)
+                self.emit(["req", fake_route + params, "c05_live_route", {"kind": "fs"}])
             elif x < 0.50:
                 routes = self.sim._request_manager.get_request_types_recursively()
                 route = r.choice(routes)
